@@ -1,6 +1,7 @@
 (* C04 -- Serde round trip: Rust data -> S-expression value -> Rust data. *)
 From Coq Require Import SpecFloat.
 Require Import Base Value Float NumberOps ListOps SerdeModel SerdeProofs.
+Require Import PrintOptions Printer ParseOptions Reader Parser TextProofs RoundtripProofs.
 
 (* For every type of the universe whose structs (and struct variants) have
    distinct field names, and every inhabitant d (ser accepts exactly the
@@ -25,6 +26,26 @@ Proof.
   rewrite E1 in E2. now inversion E2.
 Qed.
 Print Assumptions C04_injective.
+
+(* The text path: whenever the serialized value lies in the class C01 covers
+   (no floats; strings, characters and byte buffers as Rust has them; field and
+   variant names that are plain identifiers; nesting within the parser's limit),
+   printing it with the default printer, parsing the text with the default
+   parser from any source and deserializing gives d back. *)
+Theorem C04_text_roundtrip_partial : forall (cast_f32 : f64 -> f64) (is_f32 : f64 -> bool),
+  (forall f, is_f32 f = true -> cast_f32 f = f) ->
+  forall ryu alpha fast std_parse k t, wf_ty t -> forall d v, ser is_f32 t d = Some v ->
+  rt_ok alpha v -> (rdepth v <= 127)%nat ->
+  match from_trait default_ro alpha fast std_parse k (bytes_events (print0 ryu v)) with
+  | POk v' => de cast_f32 t v' = SOk d
+  | PErr _ => False
+  end.
+Proof.
+  intros cast_f32 is_f32 Hc ryu alpha fast std_parse k t Hw d v Hs Hok Hd.
+  rewrite print0_is_txt, (roundtrip_from_trait ryu alpha fast std_parse k v Hok Hd).
+  exact (roundtrip cast_f32 is_f32 Hc t Hw d v Hs).
+Qed.
+Print Assumptions C04_text_roundtrip_partial.
 
 (* Non-vacuity: a struct with an option field, a tuple variant, a map. *)
 Example C04_nonvacuous :
